@@ -419,8 +419,9 @@ def full_tie(img, kw):
         for b in np.nonzero(d2 < 1.0 + 1e-6)[0]:
             if b > a and abs(mass[a] - mass[b]) <= 1e-9 * max(1, abs(mass[a])) \
                     and abs(key[a] - key[b]) <= 1e-9 * max(1, abs(key[a])):
-                if np.abs(pos[a] - pos[b]).max() > 1e-12:
-                    return True
+                # also when the two positions coincide: two masks with different centres can have
+                # the same centroid and mass but different size / ecc (measured about the mask centre)
+                return True
     return False
 
 
@@ -553,7 +554,7 @@ def run_transpose(ctx, inp):
             res.stat("transpose_full_tie_skipped")
             return res
         rest = [c for c in bad if c != "ecc"]
-        if "ecc" in bad:
+        if "ecc" in bad and not rest:      # with other columns differing the rows are not aligned
             res.violation("property-violation",
                           "axes permuted by %s: ecc differs (%s)" % (perm, detail),
                           impl=dict(a=A["ecc"].values[:8].tolist(), b=B["ecc"].values[:8].tolist()),
